@@ -155,6 +155,17 @@ def step (s : State) (toks : List String) : State × String :=
       | .ok (.error sh) => ({}, s!"err {showShape sh}")
       | .ok (.ok t) => ({ tview := some (TView.ofTensor t) }, "ok")
     | _, _ => ({}, "bad-op")
+  | "@" :: "to_range" :: sS :: lS :: _ =>
+    -- `Range<usize>::from(IndexRange::new(start, length))` as written (dev profile)
+    match sS.toNat?, lS.toNat? with
+    | some st, some l => ({}, showOutcome (fun r => s!"ok {r.1}..{r.2}") (IndexRange.toStdRangePre ⟨st, l⟩))
+    | _, _ => ({}, "bad-op")
+  | "@" :: "from_range" :: sS :: eS :: _ =>
+    match sS.toNat?, eS.toNat? with
+    | some st, some e =>
+      let r := IndexRange.ofStdRange st e
+      ({}, s!"ok {r.start}:{r.length}")
+    | _, _ => ({}, "bad-op")
   | "@" :: "is_valid" :: shapeS :: _ =>
     match parseShape shapeS with
     | some shape => ({}, toString (isValidShape shape))
